@@ -623,6 +623,38 @@ func TestVerifC19Numa(t *testing.T) {
 						_ = extension.SetResourceSpec(resv, spec)
 					}
 					h.Tag(fmt.Sprintf("bind:reservation-spec-on-%d", specWhere))
+					// ---- stale template (ext2): the template was copied from a RUNNING pod (the migration controller puts the
+					// whole ObjectMeta of the pod being migrated into spec.template), so it carries that pod's resource-status
+					// (another CPU set, other NUMA amounts) and, when the Reservation declares its own spec, that pod's
+					// resource-spec (another exclusive policy).  PreBindReservation writes the live allocation onto the
+					// Reservation OBJECT; the reserve pod built by NewReservePod must read the object's own values.
+					if r.Chance(1, 2) {
+						var sc []int
+						for c := 0; c < nCPU; c++ {
+							if r.Bool() {
+								sc = append(sc, c)
+							}
+						}
+						if c19SameLines([]string{vIntsI(sc)}, []string{vIntsI(a.cpus)}) {
+							if len(sc) > 0 && sc[0] == 0 {
+								sc = sc[1:]
+							} else {
+								sc = append([]int{0}, sc...)
+							}
+						}
+						stale := &extension.ResourceStatus{CPUSet: cpuset.NewCPUSet(sc...).String()}
+						if r.Bool() {
+							x := c19Numa{node: r.Intn(topo.NumNodes), cpu: int64(r.Range(1, 8)) * 1000, mem: int64(r.Range(1, 64)) << 20}
+							stale.NUMANodeResources = append(stale.NUMANodeResources, extension.NUMANodeResource{Node: int32(x.node), Resources: c19RL(x, r)})
+						}
+						_ = extension.SetResourceStatus(&resv.Spec.Template.ObjectMeta, stale)
+						h.Tag("bind:reservation-stale-template-status")
+						if specWhere == 1 && r.Bool() {
+							_ = extension.SetResourceSpec(&resv.Spec.Template.ObjectMeta, &extension.ResourceSpec{PreferredCPUBindPolicy: extension.CPUBindPolicyFullPCPUs,
+								PreferredCPUExclusivePolicy: extension.CPUExclusivePolicy(c19ExclNames[(a.excl+1+r.Intn(3))%4])})
+							h.Tag("bind:reservation-stale-template-spec")
+						}
+					}
 					if kind == 2 && a.excl != 0 {
 						for _, c := range a.cpus {
 							shadowCPUs[c] = true
@@ -653,6 +685,11 @@ func TestVerifC19Numa(t *testing.T) {
 				if resv != nil {
 					resv.Status.NodeName = c19NodeName
 					resv.Status.Phase = schedulingv1alpha1.ReservationAvailable
+					if r.Chance(1, 5) {
+						// scheduled, resources not yet ready for owners: still ACTIVE (IsReservationActive), its CPUs are taken
+						resv.Status.Phase = schedulingv1alpha1.ReservationWaiting
+						h.Tag("bind:reservation-waiting")
+					}
 					annots = resv.Annotations
 				}
 				rs, gerr := extension.GetResourceStatus(annots)
@@ -682,6 +719,33 @@ func TestVerifC19Numa(t *testing.T) {
 					if !same {
 						h.Fail("C19:numa-codec-roundtrip", "pod %d: allocated cpus=%v numa=%v, read back cpuset=%q numa=%v err=%v",
 							a.uid, a.cpus, a.numa, rs.CPUSet, rs.NUMANodeResources, perr)
+					}
+				}
+				// ---- oracle (reserve pod, ext2): what a restarted scheduler reads for a Reservation is the reserve pod built by
+				// NewReservePod; it must carry exactly the allocation PreBindReservation persisted on the Reservation object,
+				// whatever spec.template carries (theorem reserve_pod_reads_own_allocation)
+				if resv != nil && gerr == nil {
+					var rp *corev1.Pod
+					if h.Guard(func() { rp = reservationutil.NewReservePod(resv.DeepCopy()) }) || rp == nil {
+						h.Fail("C19:numa-reserve-pod-reads-stale-template", "NewReservePod panicked for reservation %d", a.uid)
+					} else {
+						rs2, e2 := extension.GetResourceStatus(rp.Annotations)
+						sp2, e3 := extension.GetResourceSpec(rp.Annotations)
+						same := e2 == nil && e3 == nil && rs2 != nil && sp2 != nil
+						if same {
+							back, perr := cpuset.Parse(rs2.CPUSet)
+							same = perr == nil && vIntsI(back.ToSlice()) == vIntsI(a.cpus) && len(rs2.NUMANodeResources) == len(a.numa) &&
+								(len(a.cpus) == 0 || c19ExclEnum(schedulingconfig.CPUExclusivePolicy(sp2.PreferredCPUExclusivePolicy)) == a.excl)
+							for i := 0; same && i < len(a.numa); i++ {
+								c, m := c19RLVals(rs2.NUMANodeResources[i].Resources)
+								same = int(rs2.NUMANodeResources[i].Node) == a.numa[i].node && c == a.numa[i].cpu && m == a.numa[i].mem
+							}
+						}
+						if !same {
+							h.Fail("C19:numa-reserve-pod-reads-stale-template", "reservation %d: allocated cpus=%v numa=%v excl=%d, but its reserve pod carries resource-status %q / resource-spec %q (own=%q template=%q)",
+								a.uid, a.cpus, a.numa, a.excl, rp.Annotations[extension.AnnotationResourceStatus], rp.Annotations[extension.AnnotationResourceSpec],
+								resv.Annotations[extension.AnnotationResourceStatus], resv.Spec.Template.Annotations[extension.AnnotationResourceStatus])
+						}
 					}
 				}
 				objs[a.uid] = &c19Obj{pod: pod.DeepCopy(), alloc: a}
